@@ -90,7 +90,8 @@ def run_unit(name, do_vacuity=True, known=()):
 
 
 REPRO_OF = {'e1_': ['C02', 'C11'], 'e3_': ['C12'], 'e4_': ['C16'], 'e5_': ['C08'], 'e6_': ['C08', 'C07'], 'e7_': ['C08', 'C01', 'C07'],
-            'e8_': ['C07', 'C08'], 'e9_': ['C01', 'C05']}
+            'e8_': ['C07', 'C08'], 'e9_': ['C01', 'C05'],
+            'e10_': ['C05'], 'e11_': ['C05', 'C01'], 'e12_': ['C01']}
 
 
 def run_reproductions(pid):
@@ -107,7 +108,7 @@ def run_reproductions(pid):
         return dict(error=str(e))
     res = dict(ran=[], returned=[], output=out[-400:])
     for line in out.split('\n'):
-        m = re.match(r'test (e\d_\w+) \.\.\. (\w+)', line)
+        m = re.match(r'test (e\d+_\w+) \.\.\. (\w+)', line)
         if m and any(m.group(1).startswith(k) for k in mine):
             res['ran'].append('%s=%s' % (m.group(1), m.group(2)))
             if m.group(2) != 'ok':
